@@ -1529,6 +1529,15 @@ impl<'a, Octs: Octets + ?Sized> MessageTsig<'a, Octs> {
                     return Err(TsigError::Invalid);
                 }
 
+                // RFC 8945, section 4.2: other data is empty or, for
+                // BADTIME, a 48 bit time value. Other len and other data
+                // are part of the digest (section 4.3.3) but only these two
+                // forms are digested here, so other data of any other length
+                // would not be covered by the MAC and must not be accepted.
+                if !matches!(record.data().other().as_ref().len(), 0 | 6) {
+                    return Err(TsigError::Invalid);
+                }
+
                 // We got a valid TSIG, now assert that it's the last record:
                 if section.next().is_some() {
                     return Err(TsigError::Position);
